@@ -389,10 +389,10 @@ def protocol_check() -> List[str]:
 def jobs_for(tier: str, seed: int) -> List[dict]:
     q = tier == "quick"
     rng = random.Random(seed)
-    specs = (c18.family_W(seed + 11, 8 if q else 120)
-             + gen.family_G(seed + 1, 2 if q else 30, depth=2) + gen.family_S(seed + 2, 2 if q else 30)
-             + gen.family_H(seed + 3, 1 if q else 15) + gen.family_X(seed + 4, 1 if q else 10) + gen.family_V(seed + 5, 1 if q else 10)
-             + gen.family_R(seed + 6, 1 if q else 20) + gen.family_E(seed + 7, 1 if q else 20))
+    specs = (c18.family_W(seed + 11, 8 if q else 30)
+             + gen.family_G(seed + 1, 2 if q else 8, depth=2) + gen.family_S(seed + 2, 2 if q else 8)
+             + gen.family_H(seed + 3, 1 if q else 3) + gen.family_X(seed + 4, 1 if q else 8) + gen.family_V(seed + 5, 1 if q else 10)
+             + gen.family_R(seed + 6, 1 if q else 6) + gen.family_E(seed + 7, 1 if q else 6))
     twins = []
     for sp in specs:
         tw = gen.Spec.__new__(gen.Spec)
@@ -414,8 +414,10 @@ def jobs_for(tier: str, seed: int) -> List[dict]:
             pick = [rng.choice([c for c in combos if c[0].startswith("pythonic")]), rng.choice([c for c in combos if not c[0].startswith("pythonic")])]
         elif sp.family in ("stately",):
             pick = rng.sample(combos, 4)
-        else:
+        elif sp.family == "hostile":
             pick = combos
+        else:
+            pick = rng.sample(combos, 10)
         for (t, am, fc) in pick:
             n += 1
             jobs.append({"n": n, "spec": sp, "template": t, "am": am, "fc": fc})
